@@ -8,12 +8,10 @@ R=/tmp/repo_seed
 git -C $R checkout -q -- . ; git -C $R clean -fdq
 git -C $R apply "$patch" || { echo "patch does not apply"; exit 9; }
 for id in "$@"; do
-  cp evidence/$id.json /tmp/evidence_$id.bak 2>/dev/null
   start=$(date +%s)
-  ./vcheck $id --tier quick --repo $R > /tmp/seedcheck_$id.log 2>&1
+  VERIF_EVIDENCE_DIR=/tmp/seed_evidence ./vcheck $id --tier quick --repo $R > /tmp/seedcheck_$id.log 2>&1
   rc=$?
   end=$(date +%s)
-  cp /tmp/evidence_$id.bak evidence/$id.json 2>/dev/null
   echo "== $id exit=$rc wall=$((end-start))s"
   grep -E "^VIOLATION|^KNOWN|ENGINE-MISMATCH|inconclusive:|failure:" /tmp/seedcheck_$id.log | cut -c1-260 | head -8
 done
